@@ -56,7 +56,8 @@ Inductive op :=
 | End (t : N)
 | Unbind (p srv cli : N)            (* binding delete call of peer p, atomic *)
 | ListB (p : N)                     (* BindingManager.Bindings(peer) *)
-| OnFeat (srv : N).                 (* len(BindingManager.BindingsOnFeature(server feature)) *)
+| OnFeat (srv : N)                  (* len(BindingManager.BindingsOnFeature(server feature)) *)
+| Race (n : N) (q1 q2 : req).       (* n rounds of two free-running requests for one server feature, see below *)
 
 Inductive obs :=
 | Parked                            (* the goroutine reached AddBinding.checked *)
@@ -68,6 +69,7 @@ Inductive obs :=
 | EvRem (p srv cli : N)             (* binding-removed event *)
 | Ent (id srv cli : N)              (* one entry of a listing *)
 | Cnt (n : N)
+| RaceOut (n granted refused over : N)   (* rounds, requests granted / refused in total, rounds that saw > 1 binding on the feature *)
 | Other (c : N).                    (* anything else the implementation emits *)
 
 Definition on_feat (s : st) (f : N) : list bind := filter (fun b => N.eqb (sb_srv b) f) (binds s).
@@ -121,6 +123,37 @@ Definition unbind_step (s : st) (p srv cli : N) : st * list obs :=
   | _, _ => (s, [Res p true])
   end.
 
+(* ---- free-running overlap ----
+   [Race n q1 q2]: n rounds; in every round the requests q1 and q2 (different known peers, same
+   server feature) are handled by two goroutines released together from a spinning start and
+   run through the WHOLE of AddBinding without being parked (the runtime picks the
+   interleaving of the critical sections); when both have returned the runner counts the
+   bindings on the server feature and deletes the binding(s) granted in this round, so that the
+   next round starts from the same registry.  The observation is peer-blanked and summed over
+   the rounds.  The model is the sequential composition request 1; request 2; delete the winner
+   (Proofs/BindSchedProofs.v: [race_round_sequential], either order gives the same state and the
+   same peer-blanked outcome): per round one request is granted iff the feature is unbound and
+   at least one request is valid, the other is refused, the registry is unchanged afterwards and
+   one binding id is used up. *)
+Definition valid_req (q : req) : bool :=
+  match srv_feat (q_srv q), cli_feat (q_cli q) with
+  | Some (r, ty), Some (r', ty') => role_type_ok r ty RServer (q_typ q) && role_type_ok r' ty' RClient (q_typ q)
+  | _, _ => false
+  end.
+
+Definition race_ok (q1 q2 : req) : bool :=
+  known_peer (q_peer q1) && known_peer (q_peer q2) && negb (N.eqb (q_peer q1) (q_peer q2)) && N.eqb (q_srv q1) (q_srv q2).
+
+(* requests granted per round *)
+Definition race_grants (s : st) (q1 q2 : req) : N :=
+  if negb (bound s (q_srv q1)) && (valid_req q1 || valid_req q2) then 1%N else 0%N.
+
+Definition race_step (s : st) (n : N) (q1 q2 : req) : st * list obs :=
+  if negb (race_ok q1 q2) then (s, [NotRunnable]) else
+  let g := race_grants s q1 q2 in
+  ({| binds := binds s; next := (next s + n * g)%N; parked := parked s |},
+   [RaceOut n (n * g)%N (n * (2 - g))%N 0%N]).
+
 Definition step_gen (fixd : bool) (s : st) (o : op) : st * list obs :=
   match o with
   | Begin t q => begin_step s t q
@@ -128,6 +161,7 @@ Definition step_gen (fixd : bool) (s : st) (o : op) : st * list obs :=
   | Unbind p srv cli => unbind_step s p srv cli
   | ListB p => (s, map (fun b => Ent (sb_id b) (sb_srv b) (sb_cli b)) (filter (fun b => N.eqb (sb_peer b) p) (binds s)))
   | OnFeat f => (s, [Cnt (N.of_nat (length (on_feat s f)))])
+  | Race n q1 q2 => race_step s n q1 q2
   end.
 
 Definition step := step_gen true.           (* the repaired code *)
@@ -153,6 +187,9 @@ Definition parse_op (l : list Z) : option op :=
   | [53; p; srv; cli] => Some (Unbind (Nz p) (Nz srv) (Nz cli))
   | [54; p] => Some (ListB (Nz p))
   | [55; f] => Some (OnFeat (Nz f))
+  | [57; n; p1; c1; t1; p2; c2; t2; srv] =>
+      Some (Race (Nz n) {| q_peer := Nz p1; q_srv := Nz srv; q_cli := Nz c1; q_typ := Nz t1 |}
+                        {| q_peer := Nz p2; q_srv := Nz srv; q_cli := Nz c2; q_typ := Nz t2 |})
   | _ => None
   end.
 
@@ -167,6 +204,7 @@ Definition print_obs (o : obs) : list Z :=
   | EvRem p s c => [37; Zn p; Zn s; Zn c]
   | Ent i s c => [38; Zn i; Zn s; Zn c]
   | Cnt n => [39; Zn n]
+  | RaceOut n g r o => [41; Zn n; Zn g; Zn r; Zn o]
   | Other c => [40; Zn c]
   end.
 
@@ -181,6 +219,7 @@ Definition parse_obs (l : list Z) : option obs :=
   | [37; p; s; c] => Some (EvRem (Nz p) (Nz s) (Nz c))
   | [38; i; s; c] => Some (Ent (Nz i) (Nz s) (Nz c))
   | [39; n] => Some (Cnt (Nz n))
+  | [41; n; g; r; o] => Some (RaceOut (Nz n) (Nz g) (Nz r) (Nz o))
   | [40; c] => Some (Other (Nz c))
   | _ => None
   end.
